@@ -287,19 +287,6 @@ class BuiltinMixin(object):
             if short in ("int", "integer_types"):
                 return z3.Or(P.is_PInt(v.t), P.is_PBool(v.t))
             return z3.And(P.is_PObj(v.t), CTX.func("obj_isinstance_" + short, z3.IntSort(), z3.BoolSort())(P.o(v.t)))
-        if short in static:
-            return z3.BoolVal(isinstance(v.ty, static[short]) or (short == "list" and v.ty in (STATIC, EMPTY_LIST))
-                              or (short == "dict" and v.ty is EMPTY_DICT) or (short == "set" and v.ty is EMPTY_SET))
-        if short in ("str", "string_types", "basestring", "text_type"):
-            return z3.BoolVal(v.ty is STR)
-        if short == "bool":
-            return z3.BoolVal(v.ty is BOOL)
-        if short in ("int", "integer_types"):
-            return z3.BoolVal(v.ty in (INT, BOOL))
-        if short == "tuple":
-            return z3.BoolVal(isinstance(v.ty, Tup))
-        if v.ty is NONE:
-            return z3.BoolVal(short == "NoneType")
         if isinstance(v.ty, (Ref, U)):
             # class test on an object: declared table or uninterpreted predicate
             cname = v.ty.cls if isinstance(v.ty, Ref) else v.ty.name
@@ -313,6 +300,19 @@ class BuiltinMixin(object):
                 s2.heap, s2.glob = st.heap, st.glob
                 return self.spec_bool(r, s2)
             return core.ufun("isinstance_" + short, [v], BOOL).t
+        if short in static:
+            return z3.BoolVal(isinstance(v.ty, static[short]) or (short == "list" and v.ty in (STATIC, EMPTY_LIST))
+                              or (short == "dict" and v.ty is EMPTY_DICT) or (short == "set" and v.ty is EMPTY_SET))
+        if short in ("str", "string_types", "basestring", "text_type"):
+            return z3.BoolVal(v.ty is STR)
+        if short == "bool":
+            return z3.BoolVal(v.ty is BOOL)
+        if short in ("int", "integer_types"):
+            return z3.BoolVal(v.ty in (INT, BOOL))
+        if short == "tuple":
+            return z3.BoolVal(isinstance(v.ty, Tup))
+        if v.ty is NONE:
+            return z3.BoolVal(short == "NoneType")
         if v.ty in (INT, BOOL, STR, REAL) or isinstance(v.ty, (List, Set, Map, Tup)) or v.ty in (STATIC, EMPTY_LIST, EMPTY_DICT, EMPTY_SET):
             return z3.BoolVal(False)
         raise OutsideSubset("isinstance(%r, %s)" % (v.ty, name))
@@ -580,6 +580,14 @@ class BuiltinMixin(object):
         res = []
         for st1, (a, n) in self._args1(e, st):
             res.append((st1, core.ufun("hasattr", [a, n], BOOL)))
+        return res
+
+    def bi_issubclass(self, e, st):
+        res = []
+        for st1, (a, b) in self._args1(e, st):
+            if isinstance(a.ty, Opt):
+                a = core.oval(a)
+            res.append((st1, core.ufun("issubclass", [a, b], BOOL)))
         return res
 
     def bi_print(self, e, st):
